@@ -5,7 +5,8 @@ dir=$1; prop=$2; tier=${3:-quick}
 work=$(mktemp -d /tmp/repo_eval_XXXX)
 rsync -a --exclude .git /repo/ $work/
 (cd $work && patch -p1 -s < "$dir/patch.diff") || { echo "patch failed"; rm -rf $work; exit 2; }
-cd /verif && env PYTHONPATH="$work:/verif" PYTHONDONTWRITEBYTECODE=1 MPLBACKEND=Agg OMP_NUM_THREADS=1 .venv/bin/python -m symx.main run "$prop" --tier "$tier" --no-canaries > /tmp/seed_eval_$prop.log 2>&1
+cd /verif && env VERIF_OUT=$work/.out PYTHONPATH="$work:/verif" PYTHONDONTWRITEBYTECODE=1 MPLBACKEND=Agg OMP_NUM_THREADS=1 .venv/bin/python -m symx.main run "$prop" --tier "$tier" --no-canaries > /tmp/seed_eval_$prop.log 2>&1
 rc=$?
+mkdir -p /tmp/seed_replays; cp $work/.out/replays/*.json /tmp/seed_replays/ 2>/dev/null
 rm -rf $work
 echo "exit=$rc violations=$(grep -c '^VIOLATION' /tmp/seed_eval_$prop.log)"; grep "^VIOLATION" -A2 /tmp/seed_eval_$prop.log | grep "harness=" | head -3 | cut -c1-250; grep "tier=" /tmp/seed_eval_$prop.log | cut -c1-200
